@@ -261,6 +261,47 @@ Fixpoint mid_covers (old mid new : list N) : Prop :=
   | _, _, _ => False
   end.
 
+(* ---- any number of resizes after a full write ---- *)
+(* the specification: resize_arr folded over the requested extents; state = (current extents, data) *)
+Definition resize_chain (old : list N) (exts : list (list N)) (esz : N) (data : bytes) : list N * bytes :=
+  fold_left (fun st e => (e, resize_arr (fst st) e esz (snd st))) exts (old, data).
+
+(* pointwise order and minimum of extents of one rank *)
+Fixpoint ext_le (a b : list N) : Prop :=
+  match a, b with
+  | x :: a', y :: b' => x <= y /\ ext_le a' b'
+  | [], [] => True
+  | _, _ => False
+  end.
+Definition pmin (a b : list N) : list N := zipWith N.min a b.
+
+(* no extent of the chain is, in any dimension, below BOTH the extent the chunks were written for and the final one.
+   The complement is exactly the class of KNOWN_FINDINGS C13-shrink-then-grow: some dimension is shrunk below a value
+   that a later resize exceeds again, without a write in between. *)
+Definition chain_covers (old : list N) (exts : list (list N)) : Prop :=
+  Forall (fun m => ext_le (pmin old (last exts old)) m) exts.
+
+(* ---- resizes and full writes in any order: what the library holds and returns ---- *)
+Inductive rop : Type := RResize (e : list N) | RWrite (d : bytes).
+(* library: (extents of the last full write = what the chunk index describes, its data, current dataspace extents);
+   Resize rewrites the dataspace message only; Write (full, length checked against the current extents) writes all
+   chunks and a new index *)
+Definition lib_state : Type := (list N * bytes * list N)%type.
+Definition lib_step (esz : N) (st : lib_state) (o : rop) : lib_state :=
+  let '(wext, wdata, cur) := st in
+  match o with
+  | RResize e => if Nat.eqb (length e) (length cur) then (wext, wdata, e) else st
+  | RWrite d => if lenN d =? vol cur esz then (cur, d, cur) else st
+  end.
+Definition lib_read (cdims : list N) (esz : N) (st : lib_state) : res bytes :=
+  let '(wext, wdata, cur) := st in read_after_resize wext cur cdims esz wdata.
+(* specification: (current extents, logical data) *)
+Definition spec_step (esz : N) (st : list N * bytes) (o : rop) : list N * bytes :=
+  match o with
+  | RResize e => if Nat.eqb (length e) (length (fst st)) then (e, resize_arr (fst st) e esz (snd st)) else st
+  | RWrite d => if lenN d =? vol (fst st) esz then (fst st, d) else st
+  end.
+
 Definition all_pos (l : list N) : bool := forallb (fun x => 0 <? x) l.
 
 Definition res_eqb (a : res bytes) (b : bytes) : bool :=
